@@ -153,8 +153,10 @@ def build_project(job):
                 o["node"] = None
                 o["text"] = para.astext()[len(m.group(0)):]
             ln = line_of.get(n)
-            o["warns"] = [w["tag"] for w in warns if w["src"] and os.path.basename(w["src"]).split(".")[0] == p[-1]
-                          and ("/".join(p) + ".md") in w["src"] and w["line"] == ln]
+            def _rel(src):
+                rel = src[len(str(d)) + 1:] if src.startswith(str(d)) else src
+                return rel[:-4] if rel.endswith(".md.rst") else rel
+            o["warns"] = [w["tag"] for w in warns if w["src"] and _rel(w["src"]) == "/".join(p) + ".md" and w["line"] == ln]
             out["links"][n] = o
     out["secids"] = secids
     out["titles"] = titles
